@@ -1135,3 +1135,229 @@ def k8_from_reader(mir, rep):
     rep.witnesses.append("Encoder::from_reader: %d paths (%d Ok, %d Err)" % (stats["paths"], stats["ok"], stats["err"]))
     rep.samples.append({"query": "K8.from_reader", "paths": stats["paths"],
                         "claim": "detect(prefix.unread()) where prefix was filled by io::copy(reader.by_ref().take(DETECT_LEN)); Encoder::new(prefix.chain(reader), detected); copy failure => Err"})
+
+
+# -------------------------------------------------------------------------------------------------
+# K9: yaml::chunker::Chunker::next - one call from an arbitrary state over the libyaml event contract
+# -------------------------------------------------------------------------------------------------
+
+EV = {"STREAM_END": 2, "DOC_START": 3, "DOC_END": 4, "SCALAR": 6, "SEQ_START": 7, "MAP_START": 9}
+EV_CLASSES = ["ERR", "STREAM_END", "DOC_START", "DOC_END", "SCALAR", "SEQ_START", "MAP_START", "OTHER"]
+
+
+def k9_chunker_next(mir, rep, max_events=3):
+    fn = mir.find(r"^chunker::<impl.*>::next$")
+    body = "\n".join("\n".join(b) for b in fn.blocks.values())
+    fields = {}
+    for m in re.finditer(r"\(\(\*_1\)\.(\d+): ([^)]+)\)", body):
+        t = m.group(2)
+        if "Parser<" in t:
+            fields["parser"] = int(m.group(1))
+        elif "Option<yaml::chunker::Document>" in t:
+            fields["last"] = int(m.group(1))
+        elif "Option<yaml::chunker::DocumentKind>" in t:
+            fields["kind"] = int(m.group(1))
+        elif t.strip() == "bool":
+            fields["ended"] = int(m.group(1))
+    if len(fields) < 4:
+        raise Inconclusive("Chunker fields not identified: %s" % fields)
+    KSC = X.VARIANTS.get("DocumentKind::Scalar", 0)
+    KCO = X.VARIANTS.get("DocumentKind::Collection", 1)
+    unwrap = pure_fn("unwrap", 1)
+    from_utf8 = pure_fn("from_utf8", 1)
+    stats = {"paths": 0, "docs": 0, "errs": 0, "nones": 0}
+
+    def h(ex, p, name, argv, dst, dst_type, cur_fn):
+        g = p.ghost
+        if name == "drop":
+            return None
+        if re.search(r"Parser::<.*>::next_event$", name):
+            n = g.get("events", 0)
+            g["events"] = n + 1
+            out = []
+            classes = ["ERR", "STREAM_END"] if n >= max_events else EV_CLASSES
+            for c in classes:
+                r = fresh("ev_" + c)
+                if c == "ERR":
+                    out.append((disc(r) == 1, r))
+                elif c == "OTHER":
+                    t = disc(pure_fn("event_type", 1)(proj(r, "Ok.0")))
+                    out.append((z3.And(disc(r) == 0, t >= 0, t <= 10, z3.And([t != v for v in EV.values()])), r))
+                else:
+                    out.append((z3.And(disc(r) == 0, disc(pure_fn("event_type", 1)(proj(r, "Ok.0"))) == EV[c]), r))
+            return out
+        if re.search(r"Event::event_type$", name):
+            return pure_fn("event_type", 1)(argv[0])
+        if re.search(r"Event::start_offset$", name):
+            return pure_fn("start_offset", 1)(argv[0])
+        if re.search(r"Event::end_offset$", name):
+            return pure_fn("end_offset", 1)(argv[0])
+        if re.search(r"Parser::<.*>::reader_mut$", name):
+            return fresh("chunkreader")
+        if re.search(r"ChunkReader::<.*>::trim_to_offset$", name):
+            p.trace.append(("trim", argv[1]))
+            return fresh("unit")
+        if re.search(r"ChunkReader::<.*>::take_to_offset$", name):
+            c = fresh("chunk")
+            p.trace.append(("take", argv[1], c))
+            return c
+        if re.search(r"String::from_utf8$", name):
+            return from_utf8(argv[0])
+        if re.search(r"Result::<.*FromUtf8Error>::unwrap$", name):
+            return unwrap(argv[0])
+        if re.search(r"io::Error::new::<", name) or re.search(r"std::io::Error::new", name):
+            r = fresh("ioerr")
+            p.trace.append(("io_error_new", argv[0], argv[1], r))
+            return r
+        m = re.search(r"Option::<.*>::(take|get_or_insert)$", name)
+        if m:
+            target = ex.ref_target(p, cur_fn, ex.raw_args[0])
+            if target is None:
+                raise Inconclusive("Option::%s through an untracked reference" % m.group(1))
+            old = ex.place(p, target)
+            if m.group(1) == "take":
+                none = fresh("none")
+                p.pc.append(disc(none) == 0)
+                ex.assign(p, target, none)
+                return old
+            new = fresh("inserted")
+            p.pc.append(z3.If(disc(old) == 1, new == old, z3.And(disc(new) == 1, proj(new, "Some.0") == argv[1])))
+            ex.assign(p, target, new)
+            return proj(new, "Some.0")
+        if re.search(r"Option::<.*>::map::<", name) and "Result::<" in name and "::Ok" in name:
+            opt = argv[0]
+            r = fresh("mapped")
+            p.pc.append(disc(r) == disc(opt))
+            p.pc.append(disc(proj(r, "Some.0")) == 0)
+            p.pc.append(proj(proj(r, "Some.0"), "Ok.0") == proj(opt, "Some.0"))
+            return r
+        return None
+
+    for last_some in (False, True):
+        for kind in (None, KSC, KCO):
+            for ended in (False, True):
+                ex = X.Exec(mir, h)
+                me = fresh("chunker")
+                last0 = proj(me, "f%d" % fields["last"])
+                kind0 = proj(me, "f%d" % fields["kind"])
+                p0 = X.Path()
+                p0.pc.append(disc(last0) == (1 if last_some else 0))
+                p0.pc.append(disc(kind0) == (0 if kind is None else 1))
+                if kind is not None:
+                    p0.pc.append(disc(proj(kind0, "Some.0")) == kind)
+                p0.pc.append(asint(proj(me, "f%d" % fields["ended"])) == (1 if ended else 0))
+                doc0 = proj(last0, "Some.0")
+
+                def fin(p, how, value, ex=ex, last_some=last_some, kind=kind, ended=ended, doc0=doc0):
+                    stats["paths"] += 1
+                    if how != "return":
+                        if how not in ("dead", "unreachable"):
+                            rep.bad("K9.chunker", "Chunker::next ends with %s" % how, {"kind": "chunker"})
+                        return
+                    seen = {}
+                    for c in p.pc:
+                        for m in re.finditer(r"ev_([A-Z_]+)#(\d+)", str(c)):
+                            seen[int(m.group(2))] = (m.group(1), z3.Const("ev_%s#%s" % (m.group(1), m.group(2)), X.V))
+                    evs = [seen[k] for k in sorted(seen)]
+                    pre = "pre-state last=%s kind=%s ended=%s, events=%s" % (last_some, kind, ended, [e[0] for e in evs])
+                    wit = {"kind": "chunker", "case": pre}
+                    # ---- reference semantics of one call
+                    last = doc0 if last_some else None   # term or None
+                    kd = kind                             # None / KSC / KCO
+                    ops = []
+                    want = None
+                    made = 0
+                    if ended:
+                        want = ("none",)
+                        if evs:
+                            rep.bad("K9.chunker", "after the stream ended the parser is not consulted again", wit)
+                            return
+                    for cls, r in evs:
+                        if want is not None:
+                            break
+                        ev = proj(r, "Ok.0")
+                        if cls == "ERR":
+                            want = ("err", proj(r, "Err.0"))
+                        elif cls == "DOC_START":
+                            ops.append(("trim", pure_fn("start_offset", 1)(ev)))
+                            kd = None
+                            if last is not None:
+                                want = ("doc", last)
+                                last = None
+                        elif cls == "SCALAR":
+                            kd = KSC if kd is None else kd
+                        elif cls in ("SEQ_START", "MAP_START"):
+                            kd = KCO if kd is None else kd
+                        elif cls == "DOC_END":
+                            ops.append(("take", pure_fn("end_offset", 1)(ev)))
+                            last = ("new", len([o for o in ops if o[0] == "take"]) - 1, kd)
+                            kd = None
+                        elif cls == "STREAM_END":
+                            want = ("doc", last) if last is not None else ("none",)
+                            last = None
+                            ended_after = True
+                    if want is None:
+                        rep.bad("K9.chunker", "Chunker::next returned although no returning event was seen", wit)
+                        return
+                    # ---- compare the ChunkReader operations
+                    got_ops = [e for e in p.trace if e[0] in ("trim", "take")]
+                    if len(got_ops) != len(ops) or any(g[0] != w[0] or not ex.valid(p, g[1] == w[1])[0] for g, w in zip(got_ops, ops)):
+                        rep.bad("K9.chunker", "DOCUMENT-START trims the capture buffer to the event's start offset and DOCUMENT-END cuts it at the event's end offset, in event order", wit)
+                        return
+                    takes = [e for e in p.trace if e[0] == "take"]
+
+                    def doc_matches(val, d):
+                        if isinstance(d, tuple):
+                            _, idx, k = d
+                            chunk = takes[idx][2]
+                            ok = ex.valid(p, proj(val, "n_content") == unwrap(from_utf8(chunk)))[0]
+                            kv = proj(val, "n_kind")
+                            ok = ok and ex.valid(p, disc(kv) == (0 if k is None else 1))[0]
+                            if k is not None:
+                                ok = ok and ex.valid(p, disc(proj(kv, "Some.0")) == k)[0]
+                            return ok
+                        return ex.valid(p, val == d)[0]
+                    if want[0] == "none":
+                        stats["nones"] += 1
+                        if not ex.valid(p, disc(value) == 0)[0]:
+                            rep.bad("K9.chunker", "None exactly when the stream has ended and no document is pending", wit)
+                    elif want[0] == "err":
+                        stats["errs"] += 1
+                        ok = ex.valid(p, z3.And(disc(value) == 1, disc(proj(value, "Some.0")) == 1))[0]
+                        news = [e for e in p.trace if e[0] == "io_error_new"]
+                        ok = ok and len(news) == 1 and ex.valid(p, z3.And(proj(proj(value, "Some.0"), "Err.0") == news[0][3], news[0][2] == want[1]))[0]
+                        ok = ok and "InvalidData" in str(news[0][1])
+                        if not ok:
+                            rep.bad("K9.chunker", "a parser error is returned as Some(Err(io::Error::new(InvalidData, <the parser's error>)))", wit)
+                    else:
+                        stats["docs"] += 1
+                        ok = ex.valid(p, z3.And(disc(value) == 1, disc(proj(value, "Some.0")) == 0))[0]
+                        if not ok or not doc_matches(proj(proj(value, "Some.0"), "Ok.0"), want[1]):
+                            rep.bad("K9.chunker", "a document is returned only when the next DOCUMENT-START or STREAM-END is seen (deferred by one), and it is exactly the chunk cut at its DOCUMENT-END with the kind of its first content event", wit)
+                    # ---- post-state
+                    post = p.env.get("_1")
+                    if post is None:
+                        return
+                    plast = proj(post, "f%d" % fields["last"])
+                    pkind = proj(post, "f%d" % fields["kind"])
+                    pend = proj(post, "f%d" % fields["ended"])
+                    want_ended = ended or (evs and evs[-1][0] == "STREAM_END" and want[0] != "err")
+                    good = ex.valid(p, asint(pend) == (1 if want_ended else 0))[0]
+                    if last is None:
+                        good = good and ex.valid(p, disc(plast) == 0)[0]
+                    else:
+                        good = good and ex.valid(p, disc(plast) == 1)[0] and doc_matches(proj(plast, "Some.0"), last)
+                    good = good and ex.valid(p, disc(pkind) == (0 if kd is None else 1))[0]
+                    if kd is not None:
+                        good = good and ex.valid(p, disc(proj(pkind, "Some.0")) == kd)[0]
+                    if not good:
+                        rep.bad("K9.chunker", "post-state: pending document, kind of the document in progress and the stream-ended flag follow the event sequence", wit)
+                ex.run(fn, p0, [me], fin)
+                rep.absorb(ex)
+    if not (stats["docs"] and stats["errs"] and stats["nones"]):
+        raise Inconclusive("vacuity: chunker exploration did not reach every outcome (%s)" % stats)
+    rep.witnesses.append("Chunker::next: %d paths over 12 pre-states (%d documents returned, %d errors, %d None), <= %d events per call"
+                         % (stats["paths"], stats["docs"], stats["errs"], stats["nones"], max_events))
+    rep.samples.append({"query": "K9.chunker", "paths": stats["paths"], "bound": "one call from each of 12 abstract pre-states, <= %d libyaml events per call over 8 event classes" % max_events,
+                        "claim": "deferred-by-one document delivery, cut points from the event marks, kind from the first content event, parser error => InvalidData error, None after STREAM-END"})
+    return stats
